@@ -11,6 +11,15 @@ Theorem C11_same_nfkd : forall lib, lib_contract lib -> forall (m1 p1 m2 p2 : li
   MnemonicToSeed lib m1 p1 = MnemonicToSeed lib m2 p2.
 Proof. exact seed_same_nfkd. Qed.
 
+(* the premises are met by spellings of very different lengths: U+334D SQUARE MEETORU (3 bytes) and the four
+   katakana it stands for (12 bytes) - NFKD may lengthen a string more than threefold, so equal seeds cannot be had
+   from a normaliser writing into a buffer sized from the input *)
+Example C11_nonvacuous_expansion :
+  let p1 := [xe3; x8d; x8d] in
+  let p2 := [xe3; x83; xa1; xe3; x83; xbc; xe3; x83; x88; xe3; x83; xab] in
+  utf8_valid p1 = true /\ utf8_valid p2 = true /\ nfkd p1 = nfkd p2 /\ xsafe p1 = true /\ length (nfkd p1) = 12%nat.
+Proof. vm_compute. split; [reflexivity|]. split; [reflexivity|]. split; [reflexivity|]. split; reflexivity. Qed.
+
 (* in particular a sentence of list words joined by U+3000 and the same words joined by U+0020 *)
 Theorem C11_separators : forall lib, lib_contract lib -> forall (tbl : list (list byte)) (idx : list N) (p : list byte),
   Lib.TableWF.table_ok tbl = true -> Forall (fun i => (i < 2048)%N) idx -> utf8_valid p = true -> xsafe p = true ->
